@@ -66,6 +66,19 @@ pub fn machines(opts: &Opts) -> Vec<MCfg> {
         m.seeds = vec![0];
         out.push(m);
     }
+    // detached intermediates: a result is un-tracked (untracked() / stop_tracking()) or re-tracked
+    // between its construction and its use, while a leaf underneath it also reaches the root along a
+    // tracked path; after the pass and the drops the leaf must be sole owner with no counter / pending
+    // value left (seeded change C18-r9m1: the counting phase descends through a detached result)
+    {
+        let mut m = base_cfg("detached/N2F1P2D2", leaves(var), vec![OpK::Mul, OpK::Reshape(vec![6])], 5);
+        m.bounds = Bounds { builds: 2, flags: 1, passes: if opts.tier == Tier::Quick { 1 } else { 2 }, drops: 2, depth: if opts.tier == Tier::Quick { 6 } else { 7 }, ..Bounds::default() };
+        m.flag_kinds = vec![1, 2, 3];
+        m.check_ownership = true;
+        m.check_ref = true;
+        m.seeds = vec![0];
+        out.push(m);
+    }
     match opts.tier {
         Tier::Quick => {
             out.push(mk("pool/N2P2D2", Bounds { builds: 2, passes: 2, clears: 1, drops: 2, clones: 1, fetches: 1, updates: 1, depth: 5, ..Bounds::default() }, vec![OpK::Mul, OpK::Ln, OpK::Reshape(vec![6])], 5));
